@@ -6,6 +6,7 @@ import (
 	"go/types"
 	"path/filepath"
 	"regexp"
+	"regexp/syntax"
 	"sort"
 	"strings"
 
@@ -364,6 +365,30 @@ func init() {
 		"runtime.Caller": func(in *Interp, fn *ssa.Function, a []Value) Value {
 			return Tuple{mkInt(64, 0), "symgo", intRet(0), mkBool(false)}
 		},
+		// ---- template engine: the values handed over are kept, rendering is
+		// skipped (jet is reflection all the way down); harnesses fetch the
+		// closures back with vrt.HostVar and call them ----
+		"(github.com/CloudyKit/jet/v6.VarMap).Set": func(in *Interp, fn *ssa.Function, a []Value) Value {
+			if in.hostVars == nil {
+				in.hostVars = map[string]Value{}
+			}
+			in.hostVars[argStr(in, a[1])] = a[2]
+			return a[0]
+		},
+		"github.com/dcaiafa/lox/internal/codegen.renderTemplate": func(in *Interp, fn *ssa.Function, a []Value) Value {
+			return ""
+		},
+		"os.WriteFile": func(in *Interp, fn *ssa.Function, a []Value) Value {
+			if in.vfs == nil {
+				in.vfs = map[string]Slice{}
+			}
+			name := argStr(in, a[0])
+			src := a[1].(Slice)
+			cp := make([]Value, len(src.A))
+			copy(cp, src.A)
+			in.vfs[name] = Slice{A: cp}
+			return Iface{}
+		},
 		"os.ReadFile": func(in *Interp, fn *ssa.Function, a []Value) Value {
 			name := argStr(in, a[0])
 			if data, ok := in.vfs[name]; ok {
@@ -582,105 +607,109 @@ func sortSliceModel(in *Interp, fn *ssa.Function, a []Value) Value {
 	return nil
 }
 
-// symRegexMatch supports the anchored subset ^ [class] * + ? $ on a symbolic
-// subject with concrete length.
+// symRegexMatch decides MatchString on a symbolic subject of concrete length by
+// simulating the compiled program of regexp/syntax (Pike style) with one Bool
+// term per thread. Supported: every pattern whose rune classes lie within
+// ASCII (a byte >= 0x80 then matches no class, whatever rune it belongs to),
+// text and line anchors; not supported: word boundaries, case folding, classes
+// reaching beyond ASCII (a negated class, '.').
 func (in *Interp) symRegexMatch(pat string, subj SymStr) Bool {
-	type atom struct {
-		ranges [][2]byte
-		rep    byte // 0, '*', '+', '?'
+	re, err := syntax.Parse(pat, syntax.Perl)
+	if err != nil {
+		panic(unsupported("regexp: " + pat))
 	}
-	if !strings.HasPrefix(pat, "^") || !strings.HasSuffix(pat, "$") {
-		panic(unsupported("regexp on symbolic subject: " + pat))
+	prog, err := syntax.Compile(re.Simplify())
+	if err != nil {
+		panic(unsupported("regexp: " + pat))
 	}
-	body := pat[1 : len(pat)-1]
-	var atoms []atom
-	for i := 0; i < len(body); {
-		var at atom
-		switch body[i] {
-		case '[':
-			j := strings.IndexByte(body[i:], ']')
-			if j < 0 {
-				panic(unsupported("regexp: " + pat))
+	for _, inst := range prog.Inst {
+		switch inst.Op {
+		case syntax.InstRune, syntax.InstRune1:
+			if syntax.Flags(inst.Arg)&syntax.FoldCase != 0 {
+				panic(unsupported("regexp on symbolic subject (case folding): " + pat))
 			}
-			cls := body[i+1 : i+j]
-			for k := 0; k < len(cls); {
-				if k+2 < len(cls) && cls[k+1] == '-' {
-					at.ranges = append(at.ranges, [2]byte{cls[k], cls[k+2]})
-					k += 3
-				} else {
-					at.ranges = append(at.ranges, [2]byte{cls[k], cls[k]})
-					k++
+			for _, r := range inst.Rune {
+				if r > 0x7F {
+					panic(unsupported("regexp on symbolic subject (class beyond ASCII): " + pat))
 				}
 			}
-			i += j + 1
-		case '\\', '(', ')', '|', '.', '{':
-			panic(unsupported("regexp on symbolic subject: " + pat))
-		default:
-			at.ranges = [][2]byte{{body[i], body[i]}}
-			i++
+		case syntax.InstRuneAny, syntax.InstRuneAnyNotNL:
+			panic(unsupported("regexp on symbolic subject (any rune): " + pat))
+		case syntax.InstEmptyWidth:
+			if syntax.EmptyOp(inst.Arg)&(syntax.EmptyWordBoundary|syntax.EmptyNoWordBoundary) != 0 {
+				panic(unsupported("regexp on symbolic subject (word boundary): " + pat))
+			}
 		}
-		if i < len(body) && strings.IndexByte("*+?", body[i]) >= 0 {
-			at.rep = body[i]
-			i++
-		}
-		atoms = append(atoms, at)
 	}
 	tt := in.TT
 	n := len(subj)
-	inClass := func(at atom, c Int) *Term {
-		r := tt.False
-		ct := tt.IntTerm(c)
-		for _, rg := range at.ranges {
-			r = tt.Or(r, tt.And(tt.Cmp(OpULe, tt.Const(8, uint64(rg[0])), ct), tt.Cmp(OpULe, ct, tt.Const(8, uint64(rg[1])))))
+	byteAt := func(i int) *Term { return tt.IntTerm(subj[i]) }
+	isNL := func(i int) *Term { return tt.Cmp(OpEq, byteAt(i), tt.Const(8, '\n')) }
+	matched := tt.False
+	alive := make([]*Term, len(prog.Inst))
+	var add func(dst []*Term, pc int, cond *Term, pos int, onStack map[int]bool)
+	add = func(dst []*Term, pc int, cond *Term, pos int, onStack map[int]bool) {
+		if cond == tt.False || onStack[pc] {
+			return
 		}
-		return r
-	}
-	// m[k][i]: atoms[k:] match subj[i:]
-	m := make([][]*Term, len(atoms)+1)
-	for k := range m {
-		m[k] = make([]*Term, n+1)
-	}
-	for i := 0; i <= n; i++ {
-		m[len(atoms)][i] = tt.Bool(i == n)
-	}
-	for k := len(atoms) - 1; k >= 0; k-- {
-		at := atoms[k]
-		for i := n; i >= 0; i-- {
-			var r *Term
-			switch at.rep {
-			case 0:
-				if i < n {
-					r = tt.And(inClass(at, subj[i]), m[k+1][i+1])
-				} else {
-					r = tt.False
-				}
-			case '?':
-				r = m[k+1][i]
-				if i < n {
-					r = tt.Or(r, tt.And(inClass(at, subj[i]), m[k+1][i+1]))
-				}
-			case '*':
-				r = m[k+1][i]
-				if i < n {
-					r = tt.Or(r, tt.And(inClass(at, subj[i]), m[k][i+1]))
-				}
-			case '+':
-				if i < n {
-					// one, then star
-					star := tt.Or(m[k+1][i+1], func() *Term {
-						if i+1 <= n {
-							// m[k][i+1] means "plus from i+1"; star(i+1) = m[k+1][i+1] ∨ plus(i+1)
-							return m[k][i+1]
-						}
-						return tt.False
-					}())
-					r = tt.And(inClass(at, subj[i]), star)
-				} else {
-					r = tt.False
-				}
+		onStack[pc] = true
+		defer delete(onStack, pc)
+		inst := &prog.Inst[pc]
+		switch inst.Op {
+		case syntax.InstAlt, syntax.InstAltMatch:
+			add(dst, int(inst.Out), cond, pos, onStack)
+			add(dst, int(inst.Arg), cond, pos, onStack)
+		case syntax.InstNop, syntax.InstCapture:
+			add(dst, int(inst.Out), cond, pos, onStack)
+		case syntax.InstEmptyWidth:
+			op := syntax.EmptyOp(inst.Arg)
+			c := cond
+			if op&syntax.EmptyBeginText != 0 && pos != 0 {
+				c = tt.False
 			}
-			m[k][i] = r
+			if op&syntax.EmptyEndText != 0 && pos != n {
+				c = tt.False
+			}
+			if op&syntax.EmptyBeginLine != 0 && pos != 0 {
+				c = tt.And(c, isNL(pos-1))
+			}
+			if op&syntax.EmptyEndLine != 0 && pos != n {
+				c = tt.And(c, isNL(pos))
+			}
+			add(dst, int(inst.Out), c, pos, onStack)
+		case syntax.InstMatch:
+			matched = tt.Or(matched, cond)
+		case syntax.InstFail:
+		case syntax.InstRune, syntax.InstRune1:
+			if dst[pc] == nil {
+				dst[pc] = cond
+			} else {
+				dst[pc] = tt.Or(dst[pc], cond)
+			}
 		}
 	}
-	return symBool(m[0][0])
+	add(alive, prog.Start, tt.True, 0, map[int]bool{})
+	for pos := 0; pos < n; pos++ {
+		next := make([]*Term, len(prog.Inst))
+		c := byteAt(pos)
+		for pc, cond := range alive {
+			if cond == nil {
+				continue
+			}
+			inst := &prog.Inst[pc]
+			hit := tt.False
+			rs := inst.Rune
+			if len(rs) == 1 {
+				rs = []rune{rs[0], rs[0]}
+			}
+			for k := 0; k+1 < len(rs); k += 2 {
+				hit = tt.Or(hit, tt.And(tt.Cmp(OpULe, tt.Const(8, uint64(rs[k])), c), tt.Cmp(OpULe, c, tt.Const(8, uint64(rs[k+1])))))
+			}
+			add(next, int(inst.Out), tt.And(cond, hit), pos+1, map[int]bool{})
+		}
+		// a match may start at any later position
+		add(next, prog.Start, tt.True, pos+1, map[int]bool{})
+		alive = next
+	}
+	return symBool(matched)
 }
